@@ -43,7 +43,10 @@ FunOf(A, B) == {Fun(<<>>, <<>>)} \cup {Fun(<<Prm("pa", a, FALSE)>>, <<>>) : a \i
 L1 == L0 \cup ArrOf(L0) \cup {Tab(a, b) : a \in L0, b \in L0} \cup UnOf(L0, L0) \cup {Par(t) : t \in L0}
          \cup FunOf(L0, L0) \cup {Const("r")}
 
-L2 == L1 \cup ArrOf(L1) \cup {Tab(a, b) : a \in L0, b \in L1} \cup UnOf(L1, L0) \cup UnOf(L0, L1)
+\* key types of table<K,V>: the simple types and two unions (K is a type like any other)
+Keys2 == L0 \cup {Un(N("string"), N("CA")), Un(N("CA"), N("CB"))}
+
+L2 == L1 \cup ArrOf(L1) \cup {Tab(a, b) : a \in Keys2, b \in L1} \cup UnOf(L1, L0) \cup UnOf(L0, L1)
          \cup {Par(t) : t \in L1} \cup FunOf(L0, L1) \cup FunOf(L1, L0)
 
 L3 == L2 \cup ArrOf(L2) \cup {Par(t) : t \in L2} \cup {Tab(a, b) : a \in L0, b \in L2} \cup UnOf(L2, L0)
